@@ -3,6 +3,7 @@ package forward_test
 import (
 	"context"
 	"fmt"
+	"runtime"
 	"strings"
 	"sync"
 	"sync/atomic"
@@ -194,6 +195,7 @@ func TestVP_C20_Concurrent(t *testing.T) {
 					}
 					ready.Add(1)
 					for ready.Load() < int64(n) {
+						runtime.Gosched() // yield: more spinners than cores must not starve the late ones
 					}
 					h.HandleStreamOpen(context.Background(), ids[i], ids[i], identity.AgentID{7}, key, remotePub)
 				}(i)
